@@ -22,6 +22,9 @@ type CConfig struct {
 	Profile     string   `json:"profile"`
 	Late        bool     `json:"late"`         // every chain has one more service ("sl") that is not registered in the prologue: "register" steps submit it during the run
 	SplitGroups bool     `json:"split_groups"` // one-to-many groups only from services of the first chain, one-to-one traffic only from the others (so that the two reference models never share a transaction id)
+	SamePairs   bool     `json:"same_pairs"`   // also pairs inside one appchain, incl. a service calling itself
+	RuleOps     bool     `json:"rule_ops"`     // rule lifecycle: further rules are registered, the master rule is updated through governance (approved or rejected), rules are logged out
+	RefRestart  []int    `json:"ref_restart"`  // profiles with a single replica: it is stopped and reopened after these block indexes
 	BigBlocks   bool     `json:"big_blocks"`   // few cuts: most blocks are filled to the sequencer's limit
 }
 
@@ -128,6 +131,17 @@ func Generate(prop string, r *sim.Rand, tier string) *sim.Plan {
 	}
 	cfg.BigBlocks = r.Chance(0.35)
 	cfg.SplitGroups = prop == "C06"
+	cfg.RuleOps = prop == "C03" && r.Chance(0.5)
+	switch prop {
+	case "C02", "C04", "C06", "C16", "C01":
+		cfg.SamePairs = r.Chance(0.4)
+	}
+	if prop != "C01" && r.Chance(0.5) {
+		// node restarts between the blocks (cached vs stored records, in-memory bookkeeping of the executor)
+		for k := 0; k < r.Range(1, 3); k++ {
+			cfg.RefRestart = append(cfg.RefRestart, r.Range(1, 40))
+		}
+	}
 	switch prop {
 	case "C16", "C01", "C02", "C04", "C06":
 		cfg.Late = r.Chance(0.5)
@@ -155,6 +169,9 @@ func (g *gen) npairs() int {
 		per++
 	}
 	n := g.cfg.Chains * per
+	if g.cfg.SamePairs {
+		return n*(n-per) + g.cfg.Chains*per*per
+	}
 	return n * (n - per)
 }
 
@@ -358,6 +375,9 @@ func (g *gen) step(prop string) []CStep {
 				return []CStep{CStep{Op: "grecv", Group: r.Intn(3), N: r.Intn(4), Kind: []string{"ok", "fail", "fail", "rollback"}[r.Intn(4)]}}
 			}
 		}
+		if r.Chance(0.1) {
+			return []CStep{CStep{Op: "eth", A: r.Intn(5), B: r.Intn(8), N: r.Intn(11)}}
+		}
 		switch r.Weighted([]int{8, 8, 2, 4, 1, 1}) {
 		case 0:
 			return []CStep{g.call()}
@@ -395,6 +415,9 @@ func (g *gen) step(prop string) []CStep {
 		if g.cfg.BigBlocks {
 			w[2] = 1
 		}
+		if g.cfg.RuleOps && r.Chance(0.06) {
+			return []CStep{CStep{Op: "ruleop", A: r.Intn(4), N: r.Intn(2), Act: []string{"update", "update", "update", "register", "logout"}[r.Intn(5)], V: []string{"approve", "reject"}[r.Intn(2)]}}
+		}
 		switch r.Weighted(w) {
 		case 0:
 			return []CStep{g.proofIBTP()}
@@ -419,6 +442,8 @@ func (g *gen) step(prop string) []CStep {
 		if prop == "C01" || prop == "C07" {
 			// every transaction kind the node accepts
 			switch r.Intn(12) {
+			case 7:
+				return []CStep{CStep{Op: "eth", A: r.Intn(5), B: r.Intn(8), N: r.Intn(11)}}
 			case 0:
 				return []CStep{g.call()}
 			case 1:
@@ -561,6 +586,11 @@ func SimplifyConfig(raw json.RawMessage) []json.RawMessage {
 			c.Replicas[i] = q
 			out = append(out, sim.MustJSON(c))
 		}
+	}
+	if len(cfg.RefRestart) > 0 {
+		c := cfg
+		c.RefRestart = cfg.RefRestart[:len(cfg.RefRestart)-1]
+		out = append(out, sim.MustJSON(c))
 	}
 	if cfg.Chains > 2 {
 		c := cfg
